@@ -1081,6 +1081,8 @@ def check_C17(tier, seed):
         ('counter', "(lambda (p q) (setq cnt (1+ cnt)) (< (mod (* cnt 7) 5) 2))", 'any', None),
         ('tick<', "(lambda (p q) (tick 1 (< (car p) (car q))))", 'swo', lambda p, q: p[0] < q[0]),
         ('mod3', "(lambda (p q) (< (mod (car p) 3) (mod (car q) 3)))", 'swo', lambda p, q: p[0] % 3 < q[0] % 3),
+        # a defun'd predicate whose answer for equal keys comes out of a self tail call (the loop must run under sort as well)
+        ('tailrec-defun', "'tkey<", 'swo', lambda p, q: p[0] < q[0]),
         # the predicate sorts too (sort is re-entered while a merge is under way)
         ('nested-sort', "(lambda (p q) (< (car (sort (list 100 (car p) 50) '<)) (car (sort (list (car q) 70 200) '<))))", 'swo', lambda p, q: p[0] < q[0]),
         ('nested-sort-big', "(lambda (p q) (< (nth 5 (sort (list 9 8 (car p) 7 6 (+ 20 (car p)) 5 4 (+ 10 (car p)) 3) '>)) (nth 5 (sort (list 3 (+ 10 (car q)) 4 5 (+ 20 (car q)) 6 7 (car q) 8 9) '>))))", 'swo', lambda p, q: (7 if p[0] >= 7 else 6) < (7 if q[0] >= 7 else 6)),
@@ -1097,6 +1099,8 @@ def check_C17(tier, seed):
             for name, ptext, kind, pf in preds:
                 if n > 64 and name in ('counter', 'tick<'): continue
                 text = '(setq cnt 0) (setq l %s) (list (sort l %s) l)' % (lit, ptext)
+                if name == 'tailrec-defun':
+                    text = "(defun tkey< (p q) (cond ((< (car p) (car q)) t) ((> (car p) (car q)) nil) (t (tkey< (cons (car p) 0) (cons (- (car q) 1) 0))))) " + text
                 items.append((text, {'pairs': pairs, 'kind': kind, 'pf': pf, 'pred': name}))
             # failing predicate at its k-th call
             k = rng.randint(1, max(1, n))
@@ -1405,6 +1409,10 @@ def check_C14(tier, seed):
                            "(let ((h (make-hash-table))) (puthash 'x 1 h) (puthash (intern \"x\") 2 h) (list (gethash 'x h) (gethash (intern \"x\") h)))", '(2 2)'),
                           ("(list (assoc 'x (list (cons (intern \"x\") 1))) (assoc (intern \"x\") '((x . 1))) (alist-get 'x (list (cons (intern \"x\") 5))))", '((x . 1) (x . 1) 5)')]:
             add(wrap % body, exp, 'closure-symbol')
+    for body, exp in [("(let ((tail (list 3 4))) (list (equal (cons 0 (cons 1 tail)) (cons 0 (cons 2 tail))) (equal (cons 1 tail) (cons 2 tail)) (equal (cons 0 (cons 1 tail)) (cons 0 (cons 1 tail))) (equal (cons 9 (cons 1 tail)) (cons 8 (cons 1 tail)))))", '(nil nil t nil)'),
+                      ("(let* ((l (list 1 2 3 4)) (a (cons 'x (cdr l))) (b (cons 'y (cdr l)))) (list (equal a b) (equal (cons 0 a) (cons 0 b)) (equal a (cons 'x (cdr l))) (equal (cdr a) (cdr b)) (equal l (cons 1 (cdr l)))))", '(nil nil t t t)'),
+                      ("(let ((tail '(z))) (list (equal (list 'a (cons 1 tail) 'b) (list 'a (cons 2 tail) 'b)) (equal (cons (cons 1 tail) tail) (cons (cons 2 tail) tail)) (equal (cons \"s\" tail) (cons \"t\" tail)) (equal (cons 1.5 tail) (cons 1.5 tail))))", '(nil nil nil t)')]:
+        add(body, exp, 'shared-tail')
     pairs = list(itertools.product(atoms, atoms))
     for _ in range(tier_n(tier, 1500, 40000)):
         a = rng.choice(vals); b = mutate(a) if rng.random() < 0.6 else rng.choice(vals)
